@@ -292,7 +292,7 @@ AMP_PATTERNS = [(1, 2, 150, 2, 1), (2, 150, 1, 150, 2), (150, 1, 2, 1, 150)]
 def bounds(tier):
     # full: all 24^L static stage shapes; pat: 8^L control shapes x 3 amplification patterns
     if tier == "quick":
-        return dict(full=(1, 2, 3), pat={4: 2}, none_answer_upto=2)
+        return dict(full=(1, 2, 3), pat={}, none_answer_upto=2)
     return dict(full=(1, 2, 3), pat={4: None, 5: 3}, none_answer_upto=2)
 
 
